@@ -30,6 +30,7 @@ CONSTANTS
   MaxOps = 3
   MaxSnaps = 1
   MaxClock = 30
+  ExportFrom = 0
   WithPost = FALSE
   Bugs = {}
 VIEW View
